@@ -15,6 +15,7 @@ package host
 
 //@ contract ParseIdentifier
 //@   pure
+//@   splitext
 //@   let rest = substr(identifier, len(prefix), len(identifier) - len(prefix))
 //@   ensures parsed_suffix: err == nil && prefix != "" ==> identifier == prefix + rest && nth(strconv.ParseUint(rest, 10, 64), 1) == nil && result0 == nth(strconv.ParseUint(rest, 10, 64), 0)
 //@   ensures fits_u64: 0 <= result0 && result0 < 18446744073709551616
